@@ -952,6 +952,65 @@ def r5_element_order(rep, src):
                      'iter_parts enumerates %s although the order structure holds %s' % (got, want), where=ipf.where)
 
 
+def r5b_tokens_by_interpretation(rep, src):
+    """iter_tokens, convert_to_text and both dump() methods interpreted (sa.heap, lazy generators) on a model tree -- an element whose parts
+    are tokens and elements, three levels deep, with an element without parts -- : the tokens come out once each in document order, the
+    text is the concatenation of their texts, dump() returns it and dump(fd) writes its UTF-8 bytes in that order.  However the walk is
+    written (recursion, an explicit stack, a helper of the base class)."""
+    from .. import heap as H
+    mod = src.mod(PM)
+    texts = {'T1': 'A: ', 'T2': 'b\n', 'T3': ' c', 'T4': '\u00e9\n', 'T5': '#x\n', 'T6': '\n'}
+    # root: [T1, E1, T5, E3, T6]   E1: [T2, E2, T4]   E2: [T3]   E3: []
+    TREE = {'root': ['T1', 'E1', 'T5', 'E3', 'T6'], 'E1': ['T2', 'E2', 'T4'], 'E2': ['T3'], 'E3': []}
+    ORDER = ['T1', 'T2', 'T3', 'T4', 'T5', 'T6']
+    n = 0
+    for cname, meths in (('Deb822Element', ('iter_tokens', 'convert_to_text')), ('Deb822FileElement', ('dump', 'dump(fd)', 'convert_to_text')),
+                         ('Deb822ParagraphElement', ('dump', 'dump(fd)'))):
+        for meth in meths:
+            written = []
+
+            def parts_hook(it, a, k):
+                o = it.h.objs[a[0].name]
+                if '#parts' not in o:
+                    raise AnalysisError('iter_parts of %s' % a[0].name)
+                return H.PyIter(list(o['#parts']))
+            heap = H.Heap(mod, extra_modules=[src.mod('_util'), src.mod(TK), src.mod('_deb822_repro._util')],
+                          hooks={'.iter_parts': parts_hook, '.write': lambda it, a, k: written.append(a[1])})
+            objs = {}
+            for t_, text in texts.items():
+                objs[t_] = heap.alloc('Deb822Token', {'_text': text, 'text': text, '_parent_element': 'set', 'parent_element': 'set'}, name='@' + t_)
+            for e_ in ('E3', 'E2', 'E1', 'root'):
+                objs[e_] = heap.alloc(cname if e_ == 'root' else 'Deb822Element', {'_parent_element': 'set', 'parent_element': 'set', '_text_cached': None}, name='@' + e_)
+            for e_, ps in TREE.items():
+                heap.objs[objs[e_].name]['#parts'] = [objs[p_] for p_ in ps]
+            it = H.Interp(heap)
+            f = mod.method(cname, meth.split('(')[0])
+            if f is None:
+                raise AnalysisError('%s:%s.%s not found' % (PM, cname, meth))
+            rep.saw_func(f)
+            fd = heap.alloc('File', {}, name='@fd')
+            n += 1
+            what = '%s.%s on a model tree' % (cname, meth)
+            want_text = ''.join(texts[t_] for t_ in ORDER)
+            try:
+                r = it.call(H.Closure(f.node, {}, objs['root'], f.cls), [fd] if meth == 'dump(fd)' else [])
+                if meth == 'iter_tokens':
+                    got = [x.name[1:] if isinstance(x, H.Ref) else x for x in it.seq(r)]
+                    want = ORDER
+                elif meth == 'dump(fd)':
+                    got, want = b''.join(w_ if isinstance(w_, bytes) else repr(w_).encode() for w_ in written), want_text.encode('utf-8')
+                else:
+                    got, want = (r.concrete() if hasattr(r, 'concrete') else r), want_text
+            except H.Raised as x:
+                got, want = 'raises %s (line %d)' % (x.exc, x.lineno), None
+            if got == want:
+                rep.ok('C01.R5', f.site, what, 'every token once, in document order')
+            else:
+                rep.fail('C01.R5', f.site, what, 'on the tree root[T1 E1[T2 E2[T3] T4] T5 E3[] T6] the result is %r; the tokens in document order give %r: tokens are dropped, repeated '
+                         'or re-ordered' % (got, want if want is not None else ORDER), where=f.where)
+    rep.analysed['paths'] += n
+
+
 def _concat_of_all_tokens(fnode):
     """True / reason string / None (unrecognised) for "some return value is ''.join(<t.text for every t in self.iter_tokens()>)" """
     lists = {}
@@ -1237,7 +1296,14 @@ def check(src, rep, tier):
         rep.guard('C01.R7', r7_mode_selection, src, loop)
     rep.guard('C01.R3', r3b_line_source, src)
     rep.guard('C01.R4', r4_regrouping, src)
-    rep.guard('C01.R5', r5_element_order, src)
+    n_v, n_e = len(rep.violations), len(rep.errors)
+    rep.guard('C01.R5', r5b_tokens_by_interpretation, src)
+    walk_holds = len(rep.violations) == n_v and len(rep.errors) == n_e
+    n_r5 = sum(1 for i_ in rep.instances if i_.get('rule') == 'C01.R5')
+    from . import common as _common
+    _common.SoftErrors(rep, lambda: walk_holds, 'the interpreted walks over a model tree (C01.R5), which hold').guard('C01.R5', r5_element_order, src)
+    if rep.min_instances.get('C01.R5') == 0:
+        rep.min_instances['C01.R5'] = n_r5
     rep.guard('C01.R8', r8_token_invariants, src)
     rep.guard('C01.R9', r9_duplicate_detection, src)
     # the stages of the parse pipeline are built once (at import time) by functions that return a nested generator function: such a
